@@ -17,4 +17,13 @@ PROPS = {
               'and all u64 counts.',
         not_decided=[],
     ),
+    'C12': dict(level='proof', scope='refusal iff unsupported construct, for all parser-shaped trees', not_decided=[]),
+    'C09': dict(level='proof', scope='wrapping decision and operand order', not_decided=[]),
+    'C10': dict(level='proof', scope='mode rule, manager choice, table', not_decided=[]),
+    'C11': dict(level='proof', scope='id allocation discipline', not_decided=[]),
+    'C13': dict(level='proof', scope='RunOptions::update and thread emission', not_decided=[]),
+    'C03': dict(level='proof', scope='panic freedom of functions under contract', not_decided=[]),
+    'C17': dict(level='proof', scope='both debug_assertions configurations', not_decided=[]),
+    'C07': dict(level='proof', scope='count*unit', not_decided=[]),
+    'C15': dict(level='proof', scope='functional contracts', not_decided=[]),
 }
